@@ -8,10 +8,9 @@
     the node list), [json_proof] (= encoding/json into the Proof struct); what is assumed about
     [mpt_verify] is the explicit premise [mpt_sound] of the theorems that need it. *)
 From Teleport Require Import Base.Bytes Base.Outcome Model.EvmProof Model.EvmProofCheck Model.EvmProofWitness
-     Model.EvmProofMpt Model.EvmProofTrie Model.EvmProofMptCheck Model.EvmProofMptWitness Proofs.EvmProofRlp Proofs.EvmProof Proofs.EvmProofKeys Proofs.EvmProofMpt
-     Proofs.EvmProofMptWf Proofs.EvmProofMptFuel Proofs.EvmProofMptLoop Proofs.EvmProofDelay Proofs.EvmProofSchema
+     Model.EvmProofMpt Model.EvmProofTrie Model.EvmProofMptCheck Model.EvmProofMptWitness Proofs.EvmProofRlp Proofs.EvmProof Proofs.EvmProofMpt
+     Proofs.EvmProofMptWf Proofs.EvmProofMptFuel Proofs.EvmProofMptLoop Proofs.EvmProofDelay
      Proofs.EvmProofTrieRlp Proofs.EvmProofTrie.
-From Teleport Require Base.Fmt Gen.KeysGen Gen.EvmProofSchemaGen.
 Local Open Scope N_scope.
 
 Section Statements.
@@ -261,44 +260,8 @@ Theorem C08_undecodable_rejected : forall keccak256 mpt_verify json_proof cs cst
 Proof. exact reject_undecodable. Qed.
 Print Assumptions C08_undecodable_rejected.
 
-(** ** 6. Correspondence machinery. *)
-
-(** The slot pre-images ([path ++ pad32(208)], hashed by [proof_key]) and the consensus-state store key of
-    the model are the key builders of the Go source: they equal the renderings of the format terms that
-    tools/gotocoq/keys regenerates from host/keys.go and {eth,bsc}/types/keys.go on every run (Gen/KeysGen.v);
-    a changed Go key builder breaks this obligation. *)
-Theorem C08_keys_match_go_source :
-  (forall src dst seq,
-     Fmt.render KeysGen.eth_ProofKeyConstructor_GetPacketCommitmentProofKey_preimage (path_args src dst seq)
-     = packet_path false src dst seq ++ pad32_208 /\
-     Fmt.render KeysGen.eth_ProofKeyConstructor_GetAckProofKey_preimage (path_args src dst seq)
-     = packet_path true src dst seq ++ pad32_208 /\
-     Fmt.render KeysGen.bsc_ProofKeyConstructor_GetPacketCommitmentProofKey_preimage (path_args src dst seq)
-     = packet_path false src dst seq ++ pad32_208 /\
-     Fmt.render KeysGen.bsc_ProofKeyConstructor_GetAckProofKey_preimage (path_args src dst seq)
-     = packet_path true src dst seq ++ pad32_208) /\
-  (forall h, Fmt.render KeysGen.host_ConsensusStateKey [Fmt.VN (rn h); Fmt.VN (rh h)] = consensus_key h).
-Proof. exact keys_match_go_source. Qed.
-Print Assumptions C08_keys_match_go_source.
-
-(** The struct schemas the model was written from are the ones of the Go source: tools/gotocoq/evmproof regenerates
-    (Gen/EvmProofSchemaGen.v) the JSON names / types of [Proof] and [StorageResult], the field order and types of
-    [ProofAccount], the way [verifyMerkleProof] computes each account field from the proof record, the
-    "exactly one storage proof" constant and [paramsIndex] / [paramsLenght], for BOTH client packages. *)
-Theorem C08_schema_matches_go_source : schema_ok = true.
-Proof. exact schema_ok_true. Qed.
-Print Assumptions C08_schema_matches_go_source.
-
-(** [rlp_account (account_of_record r)] of the model is the interpretation (a struct is the RLP list of its fields
-    in declaration order; [*big.Int] = minimal big-endian string, [common.Hash] = 32-byte string) of the regenerated
-    [ProofAccount] schema and wiring, for every proof record, in both copies. *)
-Theorem C08_account_encoding_from_go_source :
-  (exists s, schema_sem EvmProofSchemaGen.eth_ProofAccount_fields EvmProofSchemaGen.eth_account_wiring = Some s /\
-             forall r, rlp_account_of_sem s r = Some (rlp_account (account_of_record r))) /\
-  (exists s, schema_sem EvmProofSchemaGen.bsc_ProofAccount_fields EvmProofSchemaGen.bsc_account_wiring = Some s /\
-             forall r, rlp_account_of_sem s r = Some (rlp_account (account_of_record r))).
-Proof. exact account_encoding_from_go_source. Qed.
-Print Assumptions C08_account_encoding_from_go_source.
+(** ** 6. Correspondence machinery.  (The ties to definitions REGENERATED from the Go source -- key formats, struct
+    schemas, account wiring, constants -- are in Props/C08_schema.v, the only file of C08 that depends on Gen/.) *)
 
 (** [verify] depends on the oracles only through the list [queries]: if the harness's tables agree with the
     real functions on these arguments, the model evaluated on the tables is the model on the real functions. *)
